@@ -178,6 +178,18 @@ def format_conversions(interp, template, args, kwargs, state, node):
         return
     for key, decimal_text, conv in fields:
         v = None
+        if isinstance(key, int) and key >= len(args):
+            # more replacement fields than arguments
+            interp.raise_pending(state, E('builtins.IndexError'), node,
+                                 'str.format: replacement index %d out of '
+                                 'range for %d argument(s)' %
+                                 (key, len(args)), cond=True)
+            raise _i()._NoReturn()
+        if isinstance(key, str) and key not in kwargs:
+            interp.raise_pending(state, E('builtins.KeyError'), node,
+                                 'str.format: no argument named %r' % key,
+                                 cond=True)
+            raise _i()._NoReturn()
         if isinstance(key, int) and key < len(args):
             v = args[key]
         elif isinstance(key, str):
